@@ -16,6 +16,8 @@ each side in that side's own model (`sys_i1_*`: C01 durability over every crash 
 index = Spec over the delivered metas, C10/C11 the metas carry the indexer's tokens) but whose representation changes
 (C01's byte-level index <-> C02's `Index` view <-> C05's `FracIdx`) are not composed here.  The main statement is
 therefore `sys_acked_found_partial`; DESIGN section 15 lists the interfaces.  Core-only.
+**Restriction:** every theorem here that takes `DistinctBulks` / `NonEmptyDocs` covers bulks WITHOUT nested metas only
+(`cons_sys_hd_hs_false_for_nested_witness`, Consistency/SysHyps.lean; see the header of Proofs/SystemClosed.lean).
 -/
 namespace SV.Sys
 open SV SV.Spec SV.ProxySearch SV.ProxyCompose SV.ProxyE2E
